@@ -201,6 +201,16 @@ def probe_classes(mods, cfg):
                 raise e
             if how == 'crash':
                 raise ValueError('handler crashed')
+            if how == 'unenc':
+                # a result json cannot encode: set / bytes / nesting beyond the recursion limit
+                if key % 3 == 0:
+                    return {1, 2}
+                if key % 3 == 1:
+                    return b'bytes'
+                deep = []
+                for _ in range(3000):
+                    deep = [deep]
+                return deep
             return key
 
     class Rpc(Common, S.RPCSession):
@@ -240,7 +250,8 @@ def charge_rows(mods):
     """(class, kind, bw, base, bytes in, bytes out (unframed), own cost) -> (cost delta, errors delta)
     kinds: 0 good request/message, 1 failing request (RPCError with own cost), 2 crashing handler,
     3 failing notification, 4 garbage line (parse error), 5 invalid request object, 6 oversized
-    request batch, 7 bad checksum frame"""
+    request batch, 7 bad checksum frame, 8 handler result that cannot be JSON-encoded (set, bytes,
+    nesting beyond the recursion limit): the request fails at the reply"""
     rows = []
     saved = mods['session'].time
     traffic = dict(bw=1 / 1024, soft=1 << 20, hard=1 << 21, decay=0.0, sleep=2.0, base=0.0, init=4)
@@ -253,6 +264,8 @@ def charge_rows(mods):
                  (0, 3, cfg, rpc_line('fail', 8, 12.25, request=False), 12.25),
                  (0, 4, cfg, b'\xff\xfe{{ not json\n', None),
                  (0, 5, cfg, b'{"jsonrpc":"2.0","method":5,"id":9}\n', 0.0),
+                 (0, 8, cfg, rpc_line('unenc', 9), 0.0), (0, 8, cfg, rpc_line('unenc', 10), 0.0),
+                 (0, 8, cfg, rpc_line('unenc', 11), 0.0),
                  (1, 0, cfg, msg_frame(mods, 'ok', 5), 0.0), (1, 2, cfg, msg_frame(mods, 'crash', 7), 0.0)]
         bad = bytearray(msg_frame(mods, 'ok', 9))
         bad[-1] ^= 0xFF
